@@ -611,7 +611,7 @@ def apply_stamps(root, mst):
     """write the model's logical stamps as modification times"""
     recs, pks = dict(scan_records(root), **scan_urecords(root)), scan_pickles(root)
     # files first, directories last: utime on a file does not touch its directory, but keep the order obvious
-    for k, p in sorted(recs.items(), key=lambda kv: kv[0].split("/")[-3 if kv[0].startswith("U:") else 1] == "D"):
+    for k, p in sorted(recs.items(), key=lambda kv: kv[0].split("/")[2 if kv[0].startswith("U:") else 1] == "D"):
         if k in mst["rec"]:
             t = BASE + mst["rec"][k]
             os.utime(p, (t, t))
@@ -712,6 +712,8 @@ def first_diff(case, mres, obs):
     prev = None
     for i, (p, m, o) in enumerate(zip(case["procs"], mres, obs)):
         crashed_m = bool(m["out"]) and m["out"][-1] == "crashed"
+        if o.get("raised"):
+            return i, "load-raises", "an Eups", o["raised"]
         if o["died"] is not None:
             if not (crashed_m and o["died"] == CRASH_STATUS << 8):
                 return i, "death", m["out"], o["died"]
@@ -743,7 +745,7 @@ def first_diff(case, mres, obs):
     return None
 
 
-FLAVOR_COL = {"decl": 4, "tag": 4, "pdecl": 3, "ptag": 3, "list": 4}
+FLAVOR_COL = {"decl": 4, "tag": 4, "pdecl": 3, "ptag": 3, "list": 4, "utag": 4, "putag": 3}
 
 
 def oracle(case, obs):
@@ -753,10 +755,15 @@ def oracle(case, obs):
     that concerns only a flavor outside that list is reported under its own kind (unconsulted-flavor)."""
     foreign = None
     for i, (p, o) in enumerate(zip(case["procs"], obs)):
+        if o.get("raised"):
+            # no answer at all: the caches (or the tag files) could not even be loaded
+            return i, ("admin-load-raises" if p.get("adm") else "load-raises"), ["an Eups instance"], [o["raised"]]
         if not o.get("ans"):
             continue
         consulted = [p["f"], "generic"]
-        for k in ("decl", "tag", "pdecl", "ptag", "list"):
+        for k in ("decl", "tag", "pdecl", "ptag", "list", "utag", "putag"):
+            if k not in o["ans"]:
+                continue
             col = FLAVOR_COL[k]
             for own in (True, False):
                 rows = [r for r in o["ans"][k] if (r[col] in consulted) == own]
@@ -773,7 +780,9 @@ def oracle(case, obs):
                 # one only the cache has, or the same declarations with different tag lists
                 bare = lambda rows: sorted(r[:-1] for r in rows) if k in ("decl", "pdecl", "list") else rows
                 if bare(c) == bare(f):
-                    what = "tags-of-version"
+                    # same declarations, different tag lists: say whether user tags are what differs
+                    ut = lambda rows: sorted([r[:-1], [t for t in r[-1] if t.startswith("user:")]] for r in rows)
+                    what = "user-tags-of-version" if ut(c) != ut(f) else "tags-of-version"
                 elif [r for r in bare(f) if r not in bare(c)]:
                     what = "missing-from-cache"
                 else:
@@ -782,8 +791,8 @@ def oracle(case, obs):
     return foreign
 
 
-def evaluate(ctx, cases, v_rm=False, v_init=False):
-    mres = [parse_model(l) for l in ctx.model([case_line(c, v_rm, v_init) for c in cases])]
+def evaluate(ctx, cases, **variant):
+    mres = [parse_model(l) for l in ctx.model([case_line(c, **variant) for c in cases])]
     ires = pool().map(impl_case, list(zip(cases, mres)), chunksize=1)
     return [(c, m, o, first_diff(c, m, o), oracle(c, o)) for c, m, o in zip(cases, mres, ires)]
 
@@ -827,7 +836,9 @@ def shape(case):
     fl = sorted(set(p["f"] for p in case["procs"] if "f" in p))
     us = sorted(set(p["u"] for p in case["procs"] if "u" in p))
     cr = sum(1 for p in case["procs"] if p.get("crash"))
-    return "procs%02d-%02d/%s/users%d/crashes%d" % (np_ // 4 * 4, np_ // 4 * 4 + 3, "+".join(fl), len(us), min(cr, 3))
+    ut = any(o["k"] in ("UA", "UU") for p in case["procs"] for o in p.get("ops", []))
+    return "procs%02d-%02d/%s/users%d/crashes%d/%s" % (np_ // 4 * 4, np_ // 4 * 4 + 3, "+".join(fl), len(us), min(cr, 3),
+                                                     "usertags" if ut else "globaltags")
 
 
 KIND_SHRUNK = {}
@@ -867,10 +878,14 @@ def process(ctx, results, budget=[6]):
                 cc = shrink(ctx, c, bad)
                 r = evaluate(ctx, [cc])[0][4] or orc
             cc = {"procs": cc["procs"][:r[0] + 1]}
-            ctx.fail(r[1], cc, expected=r[2], observed=r[3],
-                     what="process %d (a reader in a new process): the answers through the cache differ from the "
-                          "answers read from the database files; expected = rows only the files give, observed = "
-                          "rows only the cache gives" % r[0])
+            if r[1].endswith("load-raises"):
+                what = ("process %d: building the Eups instance (which loads or rebuilds the caches) raised; "
+                        "observed = the exception" % r[0])
+            else:
+                what = ("process %d (a reader in a new process): the answers through the cache differ from the "
+                        "answers read from the database files; expected = rows only the files give, observed = "
+                        "rows only the cache gives" % r[0])
+            ctx.fail(r[1], cc, expected=r[2], observed=r[3], what=what)
 
 
 def corpus_cases():
@@ -886,12 +901,17 @@ def corpus_cases():
 def configure(ctx):
     ctx.rule = ("random histories of the C06 operations (declare / assignTag / unassignTag / undeclare / undeclare "
                 "--tag / remove over 3 products x 3 versions x tags current/stable/beta x 2 stacks) split into up to "
-                "16 processes of one or two users with separate EUPS_USERDATA directories; flavor sets Linux64 with "
+                "16 processes of one or two users with separate EUPS_USERDATA directories; in half of the histories a "
+                "third of the operations are Eups.assignTag / unassignTag with the user's own user tags (u1: mine, exp; "
+                "u2: mine, lab - assigned, moved to another version, unassigned, the tagged version undeclared by the "
+                "same or the other user and declared again); flavor sets Linux64 with "
                 "generic fall-back, generic only, Linux64+Darwin; every process is a forked child that builds its "
                 "first Eups (fromCache load of every stack), runs its operations and may be killed by an injected "
                 "os._exit right before or right after the k-th database call of one operation; cache files deleted "
-                "inside and between processes; administrator loads that persist into ups_db; reader processes ask "
-                "findProduct / findTaggedProduct per stack and over the path for every product x version x tag x "
+                "inside and between processes; administrator loads (Eups(asAdmin=True), what eups admin buildCache -A "
+                "builds) that persist into ups_db; reader processes ask "
+                "findProduct / findTaggedProduct per stack and over the path for every product x version x tag (global "
+                "and the reader's user tags) x "
                 "flavor of the fall-back list with noCache=False and noCache=True, and findProducts against "
                 "Database.findProducts; after every process the modification times are rewritten to the model's "
                 "logical stamps; one evaluation = one operation or one load; a case is non-trivial when some record "
@@ -909,7 +929,10 @@ def configure(ctx):
         "the theorem is about queries for flavors the asking instance consults (its own flavor and the fall-back "
         "generic); queries about any other flavor are asked as well, compared with the model, and their incoherence is "
         "the open finding matched by c07.unconsulted_flavor",
-        "global tags only; no user tags (the user tag directory holds no chain files); _EUPS_ASSUME_CACHES_UP_TO_DATE unset",
+        "user tags are assigned and removed with Eups.assignTag / unassignTag (eups declare -t / undeclare -t on a "
+        "declared version); Eups.declare(tag=<user tag>) of a new version, which declares into the user's own stack "
+        "EUPS_USERDATA/ups_db, and tags read from another user (userTags entries with an owner) are outside the model; "
+        "an administrator's instance only loads; _EUPS_ASSUME_CACHES_UP_TO_DATE unset",
         "a process dies only between two groups or between the database call of a group and its cache update "
         "(death inside the database call is C08)"]
     # open finding: an Eups that loaded its stacks from cache files holds its own flavor and the fall-backs only,
